@@ -170,6 +170,9 @@ def _reuse_programs(tier: str):
                 yield {"reuse": [u1, u2, u3], "cancels": 0}
             if any(v[0] == "susp" for v in (u1["A"], u2["A"])):
                 yield {"reuse": [u1, u2, _REUSE_SMALL[0]], "cancels": 1}
+                # ... and the task handles the cancellation without withdrawing the request
+                # (Task.cancelling() stays 1 while it goes on with the next scopes)
+                yield {"reuse": [u1, u2, _REUSE_SMALL[0]], "cancels": 1, "keep_request": True}
 
 
 class _ReuseErr(Exception):
@@ -234,7 +237,8 @@ def _reuse(program, ch: Chooser) -> Result:  # noqa: C901, PLR0912, PLR0915
                 except asyncio.CancelledError as exc:
                     caught[u] = exc
                     cancelled_use.append(u)
-                    asyncio.current_task().uncancel()
+                    if not program.get("keep_request"):
+                        asyncio.current_task().uncancel()
                 except BaseException as exc:  # noqa: BLE001
                     caught[u] = exc
 
